@@ -102,8 +102,13 @@ func (r *positionalRelation) Map(f func(Values) (Value, error)) (Set, error) {
 }
 
 func (r *positionalRelation) Where(p func(Values) (bool, error)) (_ *positionalRelation, err error) {
+	// The set library may call the predicate from several goroutines at once.
+	var mu sync.Mutex
 	set := r.set.Where(func(elem any) bool {
-		if err != nil {
+		mu.Lock()
+		failed := err != nil
+		mu.Unlock()
+		if failed {
 			return false
 		}
 		if elem == nil {
@@ -111,7 +116,9 @@ func (r *positionalRelation) Where(p func(Values) (bool, error)) (_ *positionalR
 		}
 		match, err2 := p(elem.(Values))
 		if err2 != nil {
+			mu.Lock()
 			err = err2
+			mu.Unlock()
 			return false
 		}
 		return match
